@@ -84,6 +84,16 @@ LinesOf(r, p)   == IF Has(r, p) THEN r.dom[p].lines ELSE <<>>
 MapOf(r, p)     == IF Has(r, p) THEN r.dom[p].kv ELSE EmptyFn
 Lookup(r, p, k) == IF Has(r, p) /\ k \in DOMAIN r.dom[p].kv THEN <<r.dom[p].kv[k]>> ELSE <<>>
 
+(* Sessions.  A parsed configuration is a value: every listing query is the function Answer(r, g, p) of the  *)
+(* result r alone, and nothing a caller does -- in particular nothing it does to an answer it has received:     *)
+(* sorting it, rewriting or deleting its entries, appending to it, reusing its storage, nor anything it does to *)
+(* the text it had handed to the parser -- is a Step.  Hence two observations of the same result are equal        *)
+(* whatever the caller did in between (Oracle_Conf!Again judges the driver's second observation by this).        *)
+Answer(r, g, p) == CASE g = "GetDomain"     -> Subs(r, p)
+                     [] g = "GetDomainKey"  -> KeysOf(r, p)
+                     [] g = "GetDomainLine" -> LinesOf(r, p)
+                     [] g = "GetMap"        -> MapOf(r, p)
+
 (* Typed getters over a value vocabulary with known parses.  Results are decimal strings (the        *)
 (* harness prints numbers with strconv), so no number ever has to fit TLC's 32-bit integers.         *)
 IntOf   == ("0" :> "0") @@ ("1" :> "1") @@ ("12" :> "12") @@ ("-7" :> "-7") @@ ("3000000000" :> "3000000000")
